@@ -554,6 +554,17 @@ func (t *trzszTransfer) getNewTimeout() <-chan time.Time {
 	return nil
 }
 
+// maxDataSize returns the largest size of a binary data chunk that the other side may announce.
+// A chunk carries at most one buffer of data: the buffer size never exceeds the negotiated limit
+// ( but starts at 10240 even if the limit is lower ), and escaping at most doubles the length.
+func (t *trzszTransfer) maxDataSize() int64 {
+	bufSize := t.transferConfig.MaxBufSize
+	if bufSize < 10240 {
+		bufSize = 10240
+	}
+	return bufSize * 2
+}
+
 func (t *trzszTransfer) recvData() ([]byte, error) {
 	timeout := t.getNewTimeout()
 	if !t.transferConfig.Binary {
@@ -562,6 +573,9 @@ func (t *trzszTransfer) recvData() ([]byte, error) {
 	size, err := t.recvInteger("DATA", false, timeout)
 	if err != nil {
 		return nil, err
+	}
+	if size < 0 || size > t.maxDataSize() {
+		return nil, simpleTrzszError("Invalid data size: %d", size)
 	}
 	data, err := t.buffer.readBinary(int(size), timeout)
 	if err != nil {
@@ -704,6 +718,9 @@ func (t *trzszTransfer) recvConfig() (*transferConfig, error) {
 	}
 	if err := json.Unmarshal([]byte(cfgStr), &t.transferConfig); err != nil {
 		return nil, err
+	}
+	if t.transferConfig.MaxBufSize > 1024*1024*1024 { // trz and tsz accept 1K<=N<=1G
+		t.transferConfig.MaxBufSize = 1024 * 1024 * 1024
 	}
 	if t.transferConfig.Fork {
 		t.bgChan <- struct{}{}
